@@ -5,6 +5,7 @@ from django.template import Context, Template
 
 from django_components import Component, ComponentRegistry, NotRegistered, types
 from django_components.component_registry import all_registries
+from django_components.perfutil.component import component_context_cache
 from django_components.util.context import snapshot_context
 
 
@@ -140,7 +141,7 @@ class DynamicComponent(Component):
             outer_context=outer_context,
             registry=self.registry,
         )
-        output = comp.render(
+        output = comp._render(
             context=input_context,
             args=args,
             kwargs=kwargs,
@@ -150,6 +151,8 @@ class DynamicComponent(Component):
             escape_slots_content=False,
             type=self.input.type,
             render_dependencies=self.input.render_dependencies,
+            # If the dynamic component was given the `only` flag, it applies to the inner component too
+            only=component_context_cache[self.id].only,
         )
 
         context["output"] = output
